@@ -144,7 +144,7 @@ def parse_printed(out: str) -> list:
     for line in out.splitlines():
         s = line.strip()
         if buf is None:
-            if s.startswith("<<\""):
+            if s.startswith("<<\"") or s.startswith("<< \""):
                 buf = s
                 depth = s.count("<<") - s.count(">>")
             else:
